@@ -68,7 +68,7 @@ def case_st(draw):
         surfaces.append(s)
     lay = draw(layout_st(encoding))
     perm_seed = draw(st.integers(0, 10 ** 6))
-    order_kind = draw(st.sampled_from(["identity", "interleave", "skew", "random"]))
+    order_kind = draw(st.sampled_from(["identity", "interleave", "skew", "random", "two-runs"]))
     ops = []
     if kind == "hfe3":
         for _ in range(draw(st.integers(0, 6))):
@@ -108,6 +108,18 @@ def make_order(kind, seed, spt):
         if kind == "skew":
             k = (t * 3 + sd) % spt
             return list(range(k, spt)) + list(range(0, k))
+        if kind == "two-runs":
+            # exactly two ascending runs that are NOT a rotation of the identity (e.g. evens then odds): a subset
+            # chosen from the drawn seed in ascending order, then the rest in ascending order, optionally rotated
+            import hashlib
+            h = hashlib.sha256(b"2r:%d:%d:%d" % (seed, t, sd)).digest()
+            first = [i for i in range(spt) if (h[i % 32] >> (i // 32)) & 1] if seed % 3 else list(range(0, spt, 2))
+            rest = [i for i in range(spt) if i not in first]
+            o = first + rest
+            if seed % 2:
+                k = len(o) // 2
+                o = o[k:] + o[:k]
+            return o
         # pseudo-random permutation derived from the drawn seed
         import hashlib
         o = list(range(spt))
@@ -125,7 +137,7 @@ class C05(CheckBase):
     variants = ("dbg", "asan")
     rule = ("generated discs (Acorn / Watford / Opus; FM 10 spt, MFM 16/18 spt; 1 or 2 sides; 3-6 tracks mostly, "
             "35/40/80 sometimes) written as per-side sector dumps AND as HFE v1 / HFE v3 / HxC MFM with drawn legal "
-            "gap and sync lengths, index mark, physical sector order (identity / interleave / skew / permutation), "
+            "gap and sync lengths, index mark, physical sector order (identity / interleave / skew / permutation / two ascending runs such as evens-then-odds), "
             "track length +-3 %, and for v3 NOP/SETINDEX/SETBITRATE/SKIPBITS opcodes at drawn byte positions incl. "
             "block boundaries.  Oracle: stdout and exit status of info, type --binary, free, space, show-titles, "
             "dump-sector (same LBA), extract-files and (full-size discs) cat, sector-map on the flux image equal "
